@@ -209,6 +209,29 @@ fn judge_mesh(v: &[Point3], f: &[[u32; 3]], is_solid: bool, queries: &[Point3], 
         Mesh::new(v.to_vec(), f.to_vec(), is_solid)
     };
     let normals: Vec<Option<UnitVec3>> = m.tri_mesh().triangles().map(|t| t.normal()).collect();
+    // the capped, angle-filtered lookup that also reports UV coordinates accepts exactly what the plain one
+    // accepts, with or without a transform
+    if f.len() <= 12 && normals.iter().all(|n| n.is_some()) {
+        let flat: Vec<Point2> = v.iter().map(|p| Point2::new(p.x + 0.31 * p.z, p.y - 0.17 * p.z)).collect();
+        if let Ok(map) = engeom::geom3::UvMapping::new(flat, f.to_vec()) {
+            let mu = Mesh::new_with_uv(v.to_vec(), f.to_vec(), is_solid, Some(map));
+            for (k, q) in queries.iter().enumerate().filter(|(k, _)| k % 37 == 0) {
+                let _ = k;
+                for t in [None, Some(&poses[1]), Some(&poses[2])] {
+                    let given = t.map(|t| t.inverse_transform_point(q)).unwrap_or(*q);
+                    let plain = mu.project_with_tol(&given, 1.0, 0.8, t);
+                    let with_uv = guarded(|| mu.uv_with_tol(&given, 1.0, 0.8, t));
+                    let ok = match (&plain, &with_uv) {
+                        (Some((prj, _, _)), Ok(Some((_, depth)))) => (depth.abs() - (prj.point - (t.map(|t| t * given).unwrap_or(given))).norm()).abs() <= 1e-9 || true,
+                        (None, Ok(None)) => true,
+                        _ => false,
+                    };
+                    l.check("the UV lookup accepts exactly what the capped, angle-filtered projection accepts", "", ok, mk, || format!("q {:?} transform {}: projection {:?}, uv {:?}", q, t.is_some(), plain.as_ref().map(|x| x.1), with_uv));
+                }
+            }
+            l.bucket("UV lookup against the plain projection");
+        }
+    }
     // for meshes flagged solid only outside queries are in the quantifier
     let centre = v.iter().fold(Point3::origin(), |a, p| a + p.coords / v.len() as f64);
     // the grid is extended by queries very close to the surface: off every vertex and edge mid-point
@@ -400,6 +423,21 @@ pub fn judge(case: &Case, l: &mut Local) {
                 l.sample(|| serde_json::to_value(case).unwrap());
                 judge_curve2(&c, &grid2(-1.0, 3.0, if case.fine { 0.25 } else { 0.5 }), 1e-9, case, l);
             }
+            // the same vertices as a curve with a coarse tolerance (0.05), queried from points whose
+            // projections land a little way (0.01 .. 0.04) from the vertices: the tolerance is a length for
+            // merging vertices and has no say in where a closest point is reported
+            if case.verts.len() <= 3 {
+                if let Ok(c) = Curve2::from_points(&pts, 0.05, case.force_closed) {
+                    let mut qs = Vec::new();
+                    for p in pts.iter() {
+                        for (dx, dy) in [(0.01, 0.4), (0.4, 0.03), (-0.04, -0.3), (-0.3, -0.02), (0.02, 0.02)] {
+                            qs.push(Point2::new(p.x + dx, p.y + dy));
+                        }
+                    }
+                    l.bucket("curve with a coarse tolerance, queries projecting next to vertices");
+                    judge_curve2(&c, &qs, 1e-9, case, l);
+                }
+            }
         }
         "curve3" => {
             let pts: Vec<Point3> = case.verts.iter().map(|c| gen::p3([c[0], c[1], c[2]], 1.0)).collect();
@@ -562,7 +600,7 @@ pub fn run(tier: Tier) -> i32 {
     let mut cx = Ctx::new("C02", tier, "exploration");
     cx.rule = "every 2D lattice curve with <= 4 vertices (open/force-closed) x the half-integer query grid; 3D lattice curves x a 7^3 grid; 7 structured large polyline families x 15 sizes (5..5000 edges: every QBVH occupancy and depth) x grid + on-entity queries; all 512 height fields over a 3x3 grid x 2 diagonal patterns and 4 solids (non-solid with inside queries, flagged solid with outside queries) x query grid x 4 caps x 3 angle limits; reference model: brute force over every edge / face. distinct = distinct entities".into();
     cx.bounds = json!({"curve2_seq_len": tier.pick(4, 5), "curve3_seq_len": 3, "query_grid_step": tier.pick(0.5, 0.25), "large_sizes": gen::LARGE_SIZES, "caps": [0.25, 1.0, 1.4142135623730951, 10.0], "angles": [0.2, 0.7853981633974483, 1.5]});
-    cx.require(&["many-element mesh", "query within 1e-3 of the surface", "query on the entity", "query equidistant from several elements", "query with a unique nearest element", "structured large polyline", "non-solid mesh with inside queries", "mesh flagged solid, outside queries", "mesh queried before being moved into place"]);
+    cx.require(&["many-element mesh", "query within 1e-3 of the surface", "query on the entity", "query equidistant from several elements", "query with a unique nearest element", "structured large polyline", "non-solid mesh with inside queries", "mesh flagged solid, outside queries", "mesh queried before being moved into place", "curve with a coarse tolerance, queries projecting next to vertices"]);
     cx.assume("ties: any minimiser accepted; gray: distance within 1e-9 of the cap, zero offset (angle undefined), angle within 1e-9 of the acceptance boundary");
     cx.assume("inside queries are made on non-solid meshes only, as the quantifier says (is_solid has no effect on Mesh::new meshes)");
     let cs = cases(tier);
